@@ -16,9 +16,11 @@ Pieces (DESIGN.md section 2.3):
   E5  TheoryParser.table                       -> headTablePy
   E6  g_*_operators sets, g_tel_keywords       -> operator lists
   E7  flag triple in visit_SymbolicAtom, theory-atom guards -> atomFlags, telBodyAllowed, delBodyAllowed
-  E8  is_constraint / is_normal                -> isConstraint, isNormal
+  E8  is_constraint / is_normal (and their use in visit_Rule) -> isConstraint, isNormal
   E9  name constants                           -> strings
   E10 option parsers                           -> parseImin, parseImax, parseIstop
+  E11 visit_Program, E12 __append_final guard  -> visitProgram (Directive.lean)
+  E13 element term-count checks of visit_TheoryAtom -> telElemRejected, delElemRejected
 """
 import ast, re, os, sys, re, json
 
@@ -224,6 +226,70 @@ def calls_in(stmt):
                 out.append((STEP_OPS[key], n))
     return out
 
+def _stmt(src):
+    return ast.parse(src).body[0]
+
+def normalise_imain(fn, loop):
+    """
+    Statement-level rewrites into the shapes the extraction below reads; each is an equivalence of Python programs:
+      step = 0 ; ret = None  (adjacent or not, before the loop)    ->  step, ret = 0, None
+      a, b = [], []                                                  ->  a = [] ; b = []
+      xs.extend(e for v in it if c) / xs.extend([e for v in it if c]) / xs += [e for ...]
+                                                                     ->  for v in it: if c: xs.append(e)
+      if not (x <= y) / not x <= y                                    ->  x > y     (and the three other comparisons; ints)
+      ret = prg.solve(...) ; step += 1   (last two statements)       ->  ret, step = prg.solve(...), step + 1
+    """
+    # before the loop
+    idx = fn.body.index(loop)
+    pre = fn.body[:idx]
+    singles = {}
+    for st in pre:
+        if isinstance(st, ast.Assign) and len(st.targets) == 1 and isinstance(st.targets[0], ast.Name) and st.targets[0].id in ("step", "ret"):
+            singles[st.targets[0].id] = st
+    if set(singles) == {"step", "ret"} and ast.unparse(singles["step"].value) == "0" and is_none(singles["ret"].value):
+        pre = [st for st in pre if st is not singles["step"] and st is not singles["ret"]]
+        pre.append(_stmt("step, ret = 0, None"))
+        fn.body[:idx] = pre
+    # in the loop
+    body = []
+    for st in loop.body:
+        if (isinstance(st, ast.Assign) and len(st.targets) == 1 and isinstance(st.targets[0], ast.Tuple) and isinstance(st.value, ast.Tuple)
+                and len(st.targets[0].elts) == len(st.value.elts)
+                and all(isinstance(t, ast.Name) for t in st.targets[0].elts)
+                and all(isinstance(v, ast.List) and not v.elts for v in st.value.elts)):
+            body += [_stmt("{} = []".format(t.id)) for t in st.targets[0].elts]
+        else:
+            body.append(st)
+    if (len(body) >= 2 and isinstance(body[-2], ast.Assign) and ast.unparse(body[-2].targets[0]) == "ret" and len(body[-2].targets) == 1
+            and ast.unparse(body[-1]) in ("step += 1", "step = step + 1", "step = 1 + step")):
+        body[-2:] = [_stmt("ret, step = {}, step + 1".format(ast.unparse(body[-2].value)))]
+    loop.body = body
+    class Comp(ast.NodeTransformer):
+        def visit_Expr(self, node):
+            v = node.value
+            if (isinstance(v, ast.Call) and isinstance(v.func, ast.Attribute) and v.func.attr == "extend" and len(v.args) == 1
+                    and not v.keywords and isinstance(v.args[0], (ast.GeneratorExp, ast.ListComp)) and len(v.args[0].generators) == 1):
+                g = v.args[0].generators[0]
+                if not g.is_async and len(g.ifs) <= 1:
+                    inner = "{}.append({})".format(ast.unparse(v.func.value), ast.unparse(v.args[0].elt))
+                    if g.ifs:
+                        src = "for {} in {}:\n    if {}:\n        {}".format(ast.unparse(g.target), ast.unparse(g.iter), ast.unparse(g.ifs[0]), inner)
+                    else:
+                        src = "for {} in {}:\n    {}".format(ast.unparse(g.target), ast.unparse(g.iter), inner)
+                    return _stmt(src)
+            return node
+        def visit_UnaryOp(self, node):
+            self.generic_visit(node)
+            flip = {ast.LtE: ">", ast.Lt: ">=", ast.GtE: "<", ast.Gt: "<="}
+            if isinstance(node.op, ast.Not) and isinstance(node.operand, ast.Compare) and len(node.operand.ops) == 1 \
+                    and type(node.operand.ops[0]) in flip and ast.unparse(node.operand.left).endswith(".number"):
+                return ast.parse("{} {} {}".format(ast.unparse(node.operand.left), flip[type(node.operand.ops[0])],
+                                                   ast.unparse(node.operand.comparators[0])), mode="eval").body
+            return node
+    Comp().visit(loop)
+    Comp().visit(loop)          # comparisons inside the loops that the first pass created
+    ast.fix_missing_locations(fn)
+
 def extract_imain(repo):
     tree = parse_file(repo, "telingo/__init__.py")
     fn = inline_local_functions(find_func(tree, "imain"))
@@ -231,6 +297,7 @@ def extract_imain(repo):
     if len(whiles) != 1:
         fail("imain: expected exactly one while loop")
     loop = whiles[0]
+    normalise_imain(fn, loop)
     env = Env({"imax": "optint", "imin": "int", "istop": "str", "step": "int", "ret": "optres"})
     c = ExprC(env).expr(loop.test)
     if c[1] != "bool":
@@ -381,46 +448,64 @@ def extract_imain(repo):
 def compile_parser(fn, attr, ty):
     """
     Option parser body -> Lean `Py (T x Bool)` where T is the new value of self.__<attr>.
-    Supported statements: self.__x = int(value) | value.upper() | None ; return <bool expr> ; if len(value) > 0: ...
+    Supported statements: self.__x = int(value) | value.upper() | value | None | <local> ; <local> = int(value) ;
+    try: <target> = int(value) / except ValueError: return False ; return <bool expr> ; if <test>: ... return ...
+    (an `if` without else whose body returns: the rest of the body is the else branch).
     """
     key = "self._TelApp__" + attr
     alt = "self.__" + attr
     lines = []
-    state = {"cur": None}
+    # cur: Lean term of the current value of self.__<attr>; rawty: its Python type; locals: local name -> (lean name, type)
+    state = {"cur": None, "rawty": None, "locals": {}}
+    def env_now():
+        env = Env({"value": "str"}, {})
+        if state.get("rawty") in ("int", "str"):
+            for k in (alt, key):
+                env.types[k] = state["rawty"]; env.rename[k] = "x"
+        for name, (lean, t) in state["locals"].items():
+            env.types[name] = t; env.rename[name] = lean
+        return env
+    def bind_int(target, st):
+        """the statement `<target> = int(value)` succeeded and bound Lean `x`"""
+        t = ast.unparse(target)
+        if t in (key, alt):
+            if ty not in ("optint", "int"):
+                fail("int() into non-int option", st)
+            state["cur"] = "some x" if ty == "optint" else "x"
+            state["rawty"] = "int"
+        elif isinstance(target, ast.Name) and target.id != "value":
+            state["locals"] = dict(state["locals"]); state["locals"][target.id] = ("x", "int")
+        else:
+            fail("unsupported target of int(value)", st)
     def stmts(body, indent):
         for st in body:
-            if isinstance(st, ast.Assign) and len(st.targets) == 1 and ast.unparse(st.targets[0]) in (key, alt):
+            if isinstance(st, ast.Assign) and len(st.targets) == 1 and ast.unparse(st.value) == "int(value)":
+                lines.append(indent + "let x ← pyInt value")
+                bind_int(st.targets[0], st)
+            elif isinstance(st, ast.Assign) and len(st.targets) == 1 and ast.unparse(st.targets[0]) in (key, alt):
                 v = st.value
-                if isinstance(v, ast.Call) and ast.unparse(v) == "int(value)":
-                    if ty != "optint" and ty != "int":
-                        fail("int() into non-int option", st)
-                    lines.append(indent + "let x ← pyInt value")
-                    state["cur"] = "some x" if ty == "optint" else "x"
-                    state["rawty"] = "int"
-                elif isinstance(v, ast.Call) and ast.unparse(v) == "value.upper()":
+                if isinstance(v, ast.Call) and ast.unparse(v) == "value.upper()":
                     lines.append(indent + "let x := pyUpper value")
                     state["cur"] = "x"; state["rawty"] = "str"
                 elif isinstance(v, ast.Name) and v.id == "value" and ty == "str":
                     lines.append(indent + "let x := value")
                     state["cur"] = "x"; state["rawty"] = "str"
+                elif isinstance(v, ast.Name) and v.id in state["locals"] and state["locals"][v.id] == ("x", "int") and ty in ("optint", "int"):
+                    state["cur"] = "some x" if ty == "optint" else "x"; state["rawty"] = "int"
                 elif is_none(v):
                     state["cur"] = "none"; state["rawty"] = "none"
                 else:
                     fail("unsupported assignment in option parser", st)
             elif isinstance(st, ast.Return):
-                if state["cur"] is None:
-                    fail("return before assignment", st)
-                env = Env({"value": "str"}, {})
-                if state.get("rawty") in ("int", "str"):
-                    env.types[alt] = state["rawty"]; env.rename[alt] = "x"
-                    env.types[key] = state["rawty"]; env.rename[key] = "x"
-                c = ExprC(env).expr(st.value)
+                c = ExprC(env_now()).expr(st.value)
                 if not c[2] or c[1] != "bool":
                     fail("option parser returns a non-pure/non-boolean", st)
+                if state["cur"] is None:
+                    fail("return before assignment", st)
                 lines.append(indent + "pure ({}, {})".format(state["cur"], c[0]))
                 return True
             elif isinstance(st, ast.If) and not st.orelse:
-                env = Env({"value": "str"})
+                env = env_now()
                 test = st.test
                 if isinstance(test, ast.Name) and env.types.get(test.id) == "str":
                     test = ast.parse("len({}) > 0".format(test.id), mode="eval").body       # truthiness of a string
@@ -442,17 +527,17 @@ def compile_parser(fn, attr, ty):
             elif (isinstance(st, ast.Try) and len(st.body) == 1 and len(st.handlers) == 1 and not st.orelse and not st.finalbody
                   and isinstance(st.handlers[0].type, ast.Name) and st.handlers[0].type.id == "ValueError"
                   and len(st.handlers[0].body) == 1 and ast.unparse(st.handlers[0].body[0]) == "return False"
-                  and isinstance(st.body[0], ast.Assign) and ast.unparse(st.body[0].value) == "int(value)"
-                  and ast.unparse(st.body[0].targets[0]) in (key, alt)):
-                # try: self.__x = int(value) / except ValueError: return False
-                dflt = "none" if ty == "optint" else "0"
+                  and isinstance(st.body[0], ast.Assign) and len(st.body[0].targets) == 1
+                  and ast.unparse(st.body[0].value) == "int(value)"):
+                # try: <target> = int(value) / except ValueError: return False      (the option keeps its previous value:
+                # the default — the parser runs once per option occurrence, and clingo stops at the first rejected value)
+                dflt = state["cur"] if state["cur"] is not None else ("none" if ty == "optint" else "0")
                 lines.append(indent + "match pyInt value with")
                 lines.append(indent + "| .error .valueError => pure ({}, false)".format(dflt))
                 lines.append(indent + "| .error e => throw e")
                 lines.append(indent + "| .ok x => do")
                 indent = indent + "  "
-                state["cur"] = "some x" if ty == "optint" else "x"
-                state["rawty"] = "int"
+                bind_int(st.body[0].targets[0], st)
             else:
                 fail("unsupported statement in option parser: " + ast.unparse(st), st)
         return False
@@ -555,6 +640,26 @@ def py_table(repo):
         entries.append((op, prio, un, assoc))
     return entries
 
+def _str_set(node):
+    """a set of string constants written as a display, or as set()/frozenset() of a list / tuple / set display"""
+    if isinstance(node, ast.Call) and isinstance(node.func, ast.Name) and node.func.id in ("set", "frozenset") and len(node.args) == 1 and not node.keywords:
+        node = node.args[0]
+    if isinstance(node, (ast.Set, ast.List, ast.Tuple)) and all(isinstance(e, ast.Constant) and isinstance(e.value, str) for e in node.elts):
+        return sorted(set(e.value for e in node.elts))
+    return None
+
+def _union_names(node):
+    """names joined by `.union(...)` or `|`"""
+    if isinstance(node, ast.Name):
+        return [node.id]
+    if isinstance(node, ast.BinOp) and isinstance(node.op, ast.BitOr):
+        l, r = _union_names(node.left), _union_names(node.right)
+        return None if l is None or r is None else l + r
+    if isinstance(node, ast.Call) and isinstance(node.func, ast.Attribute) and node.func.attr == "union" and not node.keywords:
+        parts = [_union_names(node.func.value)] + [_union_names(a) for a in node.args]
+        return None if any(p is None for p in parts) else [x for p in parts for x in p]
+    return None
+
 def op_sets(repo):
     tree = parse_file(repo, "telingo/theory/formula.py")
     want = ["g_binary_operators", "g_unary_operators", "g_arithmetic_operators", "g_tel_operators",
@@ -562,11 +667,13 @@ def op_sets(repo):
     out = {}
     for st in tree.body:
         if isinstance(st, ast.Assign) and isinstance(st.targets[0], ast.Name) and st.targets[0].id in want:
-            if not isinstance(st.value, ast.Set):
-                fail("operator set is not a set literal", st)
-            out[st.targets[0].id] = sorted(e.value for e in st.value.elts)
+            v = _str_set(st.value)
+            if v is None:
+                fail("operator set is not a set of string constants", st)
+            out[st.targets[0].id] = v
         if isinstance(st, ast.Assign) and isinstance(st.targets[0], ast.Name) and st.targets[0].id == "g_all_operators":
-            if ast.unparse(st.value) != "g_binary_operators.union(g_unary_operators, g_arithmetic_operators, g_tel_operators, g_del_operators, g_path_unary_operators, g_path_binary_operators)":
+            names = _union_names(st.value)
+            if names is None or sorted(names) != sorted(want):
                 fail("g_all_operators changed: " + ast.unparse(st.value))
     if set(out) != set(want):
         fail("operator sets missing: {}".format(set(want) - set(out)))
@@ -602,6 +709,21 @@ def extract_flags(repo):
             call = n
     if call is None or len(call.args) != 5:
         fail("visit_SymbolicAtom: term transformer call not found")
+    # straight-line local names (`in_head = self.__head`, ...) are substituted: every statement before the call must be a
+    # single assignment to a fresh local name, so that the substituted expression is evaluated in the same state
+    local = {}
+    for st in fn.body:
+        if isinstance(st, ast.Expr) and isinstance(st.value, ast.Constant):
+            continue
+        if any(n is call for n in ast.walk(st)):
+            break
+        if (isinstance(st, ast.Assign) and len(st.targets) == 1 and isinstance(st.targets[0], ast.Name)
+                and st.targets[0].id not in local and not any(isinstance(n, ast.Call) for n in ast.walk(st.value))):
+            local[st.targets[0].id] = subst(st.value, local)
+        else:
+            fail("visit_SymbolicAtom: unsupported statement before the term transformer call", st)
+    if local:
+        call = subst(call, local)
     ren = {"self.__head": "head", "self.__constraint": "constraint", "self.__normal": "normal", "self.__negation": "negation"}
     def flag(n):
         src = ast.unparse(n)
@@ -635,7 +757,59 @@ def extract_flags(repo):
             tcall = n
     if tcall is None or [ast.unparse(a) for a in tcall.args[1:4]] != ["False", "True", "True"]:
         fail("visit_TheoryAtom: flags for the theory term changed")
-    return {"replaceFuture": flags[0], "failFuture": flags[1], "failPast": flags[2], "telGuard": guards["tel"], "delGuard": guards["del"]}
+    # E8: is_constraint / is_normal as Boolean functions of the shape of a statement
+    ttree = parse_file(repo, "telingo/transformers/transformer.py")
+    shape = [("s.ast_type == _ast.ASTType.Rule", "isRule"), ("s.head.ast_type == _ast.ASTType.Literal", "headIsLiteral"),
+             ("s.head.atom.ast_type == _ast.ASTType.BooleanConstant", "atomIsBoolConst"), ("s.head.atom.value", "atomValue"),
+             ("s.head.atom.ast_type == _ast.ASTType.SymbolicAtom", "atomIsSymbolic"),
+             ("s.head.sign == _ast.Sign.NoSign", "signNone"), ("s.head.sign != _ast.Sign.NoSign", "(not signNone)")]
+    def classifier(name):
+        f = find_func(ttree, name)
+        if [a.arg for a in f.args.args] != ["s"]:
+            fail(name + ": expected one parameter `s`")
+        body = [st for st in f.body if not (isinstance(st, ast.Expr) and isinstance(st.value, ast.Constant))]
+        if len(body) != 1 or not isinstance(body[0], ast.Return):
+            fail(name + ": expected a single return statement")
+        src = ast.unparse(body[0].value)
+        for k, v in shape:
+            src = src.replace(k, v)
+        if "s." in src or "_ast" in src:
+            fail(name + ": reads something other than the statement shape: " + src)
+        c = ExprC(Env({v: "bool" for _, v in shape[:6]})).expr(ast.parse(src, mode="eval").body)
+        if not c[2] or c[1] != "bool":
+            fail(name + ": not a pure boolean")
+        return c[0], ast.unparse(body[0].value)
+    is_constraint, src_c = classifier("is_constraint")
+    is_normal, src_n = classifier("is_normal")
+    # visit_Rule must set the two flags from exactly these classifiers
+    vr = find_func(tree, "visit_Rule", "ProgramTransformer")
+    assigns = {ast.unparse(n.targets[0]): ast.unparse(n.value) for n in ast.walk(vr)
+               if isinstance(n, ast.Assign) and len(n.targets) == 1 and ast.unparse(n.value) not in ("False", "[0]")}
+    if assigns.get("self.__constraint") != "_tf.is_constraint(rule)" or assigns.get("self.__normal") != "_tf.is_normal(rule)":
+        fail("visit_Rule: the constraint / normal flags are not set from is_constraint / is_normal")
+
+    # E13: the check on the number of terms of a theory element, per theory (`for element in atom.elements: if <test over
+    # len(element.terms)>: raise RuntimeError(...)` in the branch of that theory); no such check: never rejected
+    def elem_guard(theory):
+        conds = []
+        for n in ast.walk(fn):
+            if isinstance(n, ast.If) and ast.unparse(n.test) == "atom.term.name == '{}'".format(theory):
+                for m in ast.walk(ast.Module(body=n.body, type_ignores=[])):
+                    if isinstance(m, ast.For) and ast.unparse(m.iter) == "atom.elements" and isinstance(m.target, ast.Name):
+                        v = m.target.id
+                        for st in m.body:
+                            if (isinstance(st, ast.If) and not st.orelse and len(st.body) == 1 and isinstance(st.body[0], ast.Raise)
+                                    and isinstance(st.body[0].exc, ast.Call) and ast.unparse(st.body[0].exc.func) == "RuntimeError"
+                                    and "len({}.terms)".format(v) in ast.unparse(st.test)):
+                                src = ast.unparse(st.test).replace("len({}.terms)".format(v), "nterms")
+                                c = ExprC(Env({"nterms": "int"})).expr(ast.parse(src, mode="eval").body)
+                                if not c[2] or c[1] != "bool":
+                                    fail("visit_TheoryAtom: element check is not a pure boolean: " + src)
+                                conds.append(c[0])
+        return "(" + " || ".join(conds) + ")" if conds else "false"
+    return {"replaceFuture": flags[0], "failFuture": flags[1], "failPast": flags[2], "telGuard": guards["tel"], "delGuard": guards["del"],
+            "telElems": elem_guard("tel"), "delElems": elem_guard("del"),
+            "isConstraint": is_constraint, "isNormal": is_normal, "srcConstraint": src_c, "srcNormal": src_n}
 
 
 def extract_directive(repo):
@@ -877,8 +1051,20 @@ def telRejected (negation constraint : Bool) : Bool := {tg}
 /-- E7. a `&del` atom is rejected when this holds -/
 def delRejected (negation constraint : Bool) : Bool := {dg}
 
+/-- E8. `is_constraint(s)` as a function of the shape of the statement.  source: {sc} -/
+def isConstraint (isRule headIsLiteral atomIsBoolConst atomValue atomIsSymbolic signNone : Bool) : Bool := {ic}
+/-- E8. `is_normal(s)`.  source: {sn} -/
+def isNormal (isRule headIsLiteral atomIsBoolConst atomValue atomIsSymbolic signNone : Bool) : Bool := {inn}
+
+/-- E13. an element with `nterms` terms in a body `&tel` atom is rejected (RuntimeError) when this holds -/
+def telElemRejected (nterms : Int) : Bool := {te}
+/-- E13. an element with `nterms` terms in a `&del` atom is rejected (RuntimeError) when this holds -/
+def delElemRejected (nterms : Int) : Bool := {de}
+
 end TelModel.Generated
-""".format(rf=fl["replaceFuture"], ff=fl["failFuture"], fp=fl["failPast"], tg=fl["telGuard"], dg=fl["delGuard"])
+""".format(rf=fl["replaceFuture"], ff=fl["failFuture"], fp=fl["failPast"], tg=fl["telGuard"], dg=fl["delGuard"],
+           te=fl["telElems"], de=fl["delElems"], ic=fl["isConstraint"], inn=fl["isNormal"],
+           sc=fl["srcConstraint"].replace("-/", "- /"), sn=fl["srcNormal"].replace("-/", "- /"))
 
 def generate(repo):
     """every generated file on its own: a source shape the translator does not understand makes that file fail, not the others"""
